@@ -3320,12 +3320,8 @@ class CV:
             del env[key_]
         if len(state) == 1:
             return 'let %s := %s in\n  %s' % (env[state[0]][0], text, k(env))
-        self.n += 1
-        stv = "st'%d" % self.n
-        out = 'let %s := %s in\n  ' % (stv, text)
-        for r, pr in zip(state, self.projections(stv, len(state))):
-            out += 'let %s := %s in ' % (env[r][0], pr)
-        return out + '\n  ' + k(env)
+        # several locals: a destructuring let (a match on the tuple: nothing is duplicated when the term is unfolded)
+        return "let '%s := %s in\n  %s" % (self.tuple_of([env[r][0] for r in state]), text, k(env))
 
     def drop_locals(self, env, names):
         env = dict(env)
@@ -3597,9 +3593,7 @@ class CV:
         if len(state) == 1:
             head = 'fun %s %s => ' % (env[state[0]][0], itv)
         else:
-            head = 'fun %s %s => ' % (stv, itv)
-            for r, pr in zip(state, self.projections(stv, len(state))):
-                head += 'let %s := %s in ' % (env[r][0], pr)
+            head = "fun %s %s => let '%s := %s in " % (stv, itv, self.tuple_of([env[r][0] for r in state]), stv)
         init = self.tuple_of([env[r][0] for r in state])
         text = '(fold_left (%s%s%s) %s %s)' % (head, pre, body, it, init)
         return pre0 + self.rebind(state, text, self.drop_locals(env, local + targets), k, s)
